@@ -80,6 +80,7 @@ pub fn gen_key_mode(rng: &mut Rng, fixed_randomness: bool) -> Mode {
         r_priv: Hx(gen_sk(rng).to_vec()),
         e_priv: if fixed_randomness { Some(Hx(gen_sk(rng).to_vec())) } else { None },
         payload: if fixed_randomness { Some(Hx(rng.bytes(32))) } else { None },
+        omit_e_pub: false,
     }
 }
 
